@@ -42,7 +42,9 @@ static void ycb(const volatile void *addr, const char *func, int line){ (void)li
 static long (*real_syscall)(long, ...); static int inject; static atomic_long spurious, pings;
 long syscall(long n, ...){ va_list ap; va_start(ap,n); long a0=va_arg(ap,long),a1=va_arg(ap,long),a2=va_arg(ap,long),a3=va_arg(ap,long),a4=va_arg(ap,long),a5=va_arg(ap,long); va_end(ap);
   if(!real_syscall) real_syscall=(long(*)(long,...))dlsym(RTLD_NEXT,"syscall");
-  if(n==SYS_futex && (a1&FUTEX_CMD_MASK)==FUTEX_WAIT && inject && a0>=(long)preds && a0<(long)(preds+rounds) && rnd()%4==0){ atomic_fetch_add(&spurious,1); return 0; }
+  if(n==SYS_futex && (a1&FUTEX_CMD_MASK)==FUTEX_WAIT && inject && a0>=(long)preds && a0<(long)(preds+rounds)){      // recorded: the value the waiter goes to sleep on (op 9: old = expected, new = the word now)
+    if(!mytid) mytid=(int)real_syscall(SYS_gettid); unsigned long k=atomic_fetch_add(&nev,1); if(k<MAXEV) evs[k]=(ev_t){atomic_fetch_add(&seq,1),mytid,(int)((dispatch_once_t*)a0-preds),9,(uint64_t)(uint32_t)a2,(uint64_t)*(volatile uint32_t*)a0,"futex_wait"};
+    if(rnd()%4==0){ atomic_fetch_add(&spurious,1); return 0; } }
   return real_syscall(n,a0,a1,a2,a3,a4,a5); }
 static void on_usr1(int sig){ (void)sig; }
 static atomic_int viol; static char vmsg[300];
